@@ -43,9 +43,11 @@ def alignCentres (v : Nat) : List (Nat × Nat) :=
 
 def dist (a b : Nat) : Nat := if a ≥ b then a - b else b - a
 
-/-- Chebyshev distance to the nearest alignment centre within 2, if any -/
-def alignDist (v r c : Nat) : Option Nat :=
-  ((alignCentres v).find? fun (a, b) => dist r a ≤ 2 && dist c b ≤ 2).map fun (a, b) => max (dist r a) (dist c b)
+/-- Chebyshev distance to the nearest of the given centres within 2, if any -/
+def alignDistIn (centres : List (Nat × Nat)) (r c : Nat) : Option Nat :=
+  (centres.find? fun (a, b) => dist r a ≤ 2 && dist c b ≤ 2).map fun (a, b) => max (dist r a) (dist c b)
+
+def alignDist (v r c : Nat) : Option Nat := alignDistIn (alignCentres v) r c
 
 def formatCells (n : Nat) : List (Nat × Nat) :=
   let rel (k : Int) : Nat := if k < 0 then n - k.natAbs else k.natAbs
@@ -55,32 +57,45 @@ def versionCells (n : Nat) : List (Nat × Nat) :=
   let rel (k : Int) : Nat := if k < 0 then n - k.natAbs else k.natAbs
   (Iso.versionBL ++ Iso.versionTR).map fun (x, y) => (rel y, rel x)
 
-/-- region of coordinate (r, c) in version `v`. Where an alignment pattern sits on a timing line
-(row/column 6, versions 7+) the module is counted as alignment: both patterns prescribe the same
-value there, and the alignment pattern is the more specific region. -/
-def region (v r c : Nat) : Region :=
-  let n := side v
-  if inFinder n r c then .finder
-  else if inCorner n r c then .separator
-  else if (alignDist v r c).isSome then .alignment
+/-- the per-version data `region` needs, computed once -/
+structure Ctx where
+  v : Nat
+  n : Nat
+  centres : List (Nat × Nat)
+  fcells : List (Nat × Nat)
+  vcells : List (Nat × Nat)
+
+def ctx (v : Nat) : Ctx :=
+  { v := v, n := side v, centres := alignCentres v, fcells := formatCells (side v), vcells := versionCells (side v) }
+
+/-- region of coordinate (r, c). Where an alignment pattern sits on a timing line (row/column 6,
+versions 7+) the module is counted as alignment: both patterns prescribe the same value there, and
+the alignment pattern is the more specific region. -/
+def regionIn (x : Ctx) (r c : Nat) : Region :=
+  if inFinder x.n r c then .finder
+  else if inCorner x.n r c then .separator
+  else if (alignDistIn x.centres r c).isSome then .alignment
   else if r == 6 || c == 6 then .timing
-  else if r == n - 8 && c == 8 then .dark
-  else if (formatCells n).contains (r, c) then .format
-  else if v ≥ 6 && (versionCells n).contains (r, c) then .version
+  else if r == x.n - 8 && c == 8 then .dark
+  else if x.fcells.contains (r, c) then .format
+  else if x.v ≥ 6 && x.vcells.contains (r, c) then .version
   else .data
 
+def region (v r c : Nat) : Region := regionIn (ctx v) r c
+
 /-- prescribed value (dark?) of a function-pattern module; `none` for data / format / version -/
-def stdValue (v r c : Nat) : Option Bool :=
-  let n := side v
-  match region v r c with
+def stdValueIn (x : Ctx) (r c : Nat) : Option Bool :=
+  match regionIn x r c with
   | .finder =>
-    let corner := (finderCorners n).find? fun (y, x) => y ≤ r && r < y + 7 && x ≤ c && c < x + 7
+    let corner := (finderCorners x.n).find? fun (y, x) => y ≤ r && r < y + 7 && x ≤ c && c < x + 7
     corner.map fun (y, x) => max (dist r (y + 3)) (dist c (x + 3)) != 2
   | .separator => some false
-  | .alignment => (alignDist v r c).map fun d => d != 1
+  | .alignment => (alignDistIn x.centres r c).map fun d => d != 1
   | .timing => some ((r + c) % 2 == 0)
   | .dark => some true
   | _ => none
+
+def stdValue (v r c : Nat) : Option Bool := stdValueIn (ctx v) r c
 
 /-- number of encoding-region modules -/
 def dataModuleCount (v : Nat) : Nat :=
@@ -94,6 +109,6 @@ end FastQr.Spec
 namespace FastQr.Spec.Regions
 /-- the region codes of all modules, row-major (what the driver caches per version) -/
 def regionMap (v : Nat) : Array Nat :=
-  let n := side v
-  Array.ofFn (n := n * n) fun k => (region v (k.val / n) (k.val % n)).code
+  let x := ctx v
+  Array.ofFn (n := x.n * x.n) fun k => (regionIn x (k.val / x.n) (k.val % x.n)).code
 end FastQr.Spec.Regions
